@@ -220,6 +220,47 @@ func genC01(r *Rng, e *Emitter, n int) {
 		if malformed {
 			s.bad = r.malformedPlan(l.Stride())
 		}
+		if r.chance(1, 10) {
+			// NewMultiPointFlat: caller-supplied flat array, with and without the ends option
+			stride := l.Stride()
+			n := r.levelSize() + r.Intn(3)
+			flat := make([]float64, 0, n*stride+2)
+			for k := 0; k < n*stride; k++ {
+				flat = append(flat, r.anyBits())
+			}
+			if r.chance(1, 8) && stride > 1 { // not a whole number of coordinates
+				flat = append(flat, r.anyBits())
+			}
+			endsSx := "nil"
+			var opts []geom.NewMultiPointFlatOption
+			if r.chance(1, 2) {
+				// explicit ends: some members empty
+				var ends []int
+				off := 0
+				for off < len(flat) || r.chance(1, 3) {
+					if stride > 0 && off+stride <= len(flat) && !r.chance(1, 3) {
+						off += stride
+					} else if off >= len(flat) && len(ends) > 6 {
+						break
+					}
+					ends = append(ends, off)
+					if len(ends) > 12 {
+						break
+					}
+				}
+				if ends != nil {
+					endsSx = sxInts(ends)
+					opts = append(opts, geom.NewMultiPointFlatOptionWithEnds(ends))
+				}
+			}
+			e.tally("type=newflat.mpoint")
+			e.emit("C01.newflat.mpoint", fmt.Sprintf("(%d %s %s)", int(l), sxCoord(flat), endsSx), guard(func() string {
+				g := geom.NewMultiPointFlat(l, flat, opts...)
+				rb := guard(func() string { return "(ok " + sxMCoords(g.Coords()) + ")" })
+				return "(ok (" + sxG2(g.Layout(), g.Stride(), g.FlatCoords(), g.Ends(), g.SRID()) + " " + rb + "))"
+			}))
+			continue
+		}
 		kind := r.Intn(7)
 		e.tally(fmt.Sprintf("layout=%d", int(l)))
 		switch kind {
